@@ -59,6 +59,7 @@ type c03vp struct {
 	Expels   []c03expel     `json:"expels"`
 	Majority string         `json:"majority"` // "X", "Y" or "-"
 	Stuck    bool           `json:"stuck"`
+	OffPoint int            `json:"off_point"` // 0 none; 1 one sign fact of another round; 2 INIT facts inside an ACCEPT voteproof
 	extra    map[string]int // not serialised
 }
 
@@ -80,6 +81,9 @@ func (v c03vp) line() string {
 	line := fmt.Sprintf("vp %d S:%s V:%s E:%s M:%s", v.T10, strings.Join(s, ","), strings.Join(vs, ","), strings.Join(es, ";"), v.Majority)
 	if v.Stuck {
 		line += " stuck"
+	}
+	if v.OffPoint != 0 {
+		line += " offpoint"
 	}
 	return line
 }
@@ -116,7 +120,11 @@ func (e *c03env) accepted(v c03vp, proposals map[string]util.Hash) (bool, string
 		var id int
 		fmt.Sscan(x[0], &id)
 		ln := e.node(id)
-		sf := isaac.NewINITBallotSignFact(fact(x[1]))
+		f := fact(x[1])
+		if v.OffPoint == 1 && i == 0 { // the same fact one round later
+			f = isaac.NewINITBallotFact(base.NewPoint(e.point.Height(), e.point.Round()+1), e.prev, proposals[x[1]], expelfacts)
+		}
+		sf := isaac.NewINITBallotSignFact(f)
 		if err := sf.NodeSign(ln.Privatekey(), hNetworkID, ln.Address()); err != nil {
 			return false, "sign: " + err.Error()
 		}
@@ -124,7 +132,26 @@ func (e *c03env) accepted(v c03vp, proposals map[string]util.Hash) (bool, string
 	}
 	th := base.Threshold(float64(v.T10) / 10)
 	var vp base.Voteproof
-	if v.Stuck {
+	if v.OffPoint == 2 { // the INIT sign facts (and majority) presented as an ACCEPT voteproof of the same height and round
+		if len(expels) > 0 {
+			w := isaac.NewACCEPTExpelVoteproof(e.point)
+			if v.Majority != "-" {
+				w.SetMajority(fact(v.Majority))
+			}
+			w.SetSignFacts(sfs).SetThreshold(th)
+			w.SetExpels(expels)
+			w.Finish()
+			vp = w
+		} else {
+			w := isaac.NewACCEPTVoteproof(e.point)
+			if v.Majority != "-" {
+				w.SetMajority(fact(v.Majority))
+			}
+			w.SetSignFacts(sfs).SetThreshold(th)
+			w.Finish()
+			vp = w
+		}
+	} else if v.Stuck {
 		w := isaac.NewINITStuckVoteproof(e.point)
 		w.SetSignFacts(sfs)
 		w.SetExpels(expels)
@@ -256,6 +283,9 @@ func (c *Ctx) c03gen(n int, t10s []int, t10 int) c03vp {
 			v.Majority = "-"
 			return v
 		}
+	}
+	if !v.Stuck && len(v.Votes) > 0 && c.Chance(1, 12) {
+		v.OffPoint = 1 + c.Intn(2)
 	}
 	// declared majority: usually the leading fact, sometimes the other one or a draw
 	switch r := c.Intn(12); {
